@@ -1,3 +1,34 @@
+/-
+  C16GenMinMax — the four min/max operations of bid128_minmax.rs as translated in `DecGen/Code.lean`
+  (`Dec.Gen.Code.bid128_minnum`, `bid128_maxnum`, `bid128_minnum_mag`, `bid128_maxnum_mag`), for ALL pairs of 128-bit
+  patterns (non-canonical ones included) and every incoming status word:
+
+      routine x y f = .ok (ofBits (encode (selBy first a b)), flagsOut f a b)       a = decode (bitsOf x), b = decode (bitsOf y)
+
+  * never a panic; the status word is the incoming one with `invalid` or-ed in iff an operand is a signalling NaN;
+  * the result is always the CANONICAL encoding of an operand (`result_canonical`), also for non-canonical operands
+    (each operand is first replaced by `canon`: `canonW_spec`) — or the quieted copy of a signalling NaN operand;
+  * NaNs (`nanSel`): first operand sNaN → it, quieted; else first qNaN and second a NaN (quiet or signalling) → the first;
+    else first qNaN → the second operand; else second sNaN → it, quieted; second qNaN → the first operand;
+  * numbers: `first a b` (`minFirst`, `maxFirst`, `minMagFirst`, `maxMagFirst` = `firstOf mx mag tie`) says whether the
+    first operand is returned: forced by the exact order `ordOf` (the one `Dec.minmaxChoices` uses) when it is strict,
+    and by an explicit tie rule when the operands compare equal — so the result bits are completely determined:
+      `plainTie`: two zeros → the first operand; equal non-zero values (a cohort) → `minnum`: larger exponent if positive,
+                  smaller exponent if negative; `maxnum`: smaller exponent if positive, larger if negative;
+      `magTie`:   two zeros → `minnum_mag` the first, `maxnum_mag` the second operand; a cohort → `minnum_mag` the first
+                  operand if positive, the second if negative; `maxnum_mag` the other way round.
+  * every choice is one the specification allows: `selBy_mem_choices` (∈ `minmaxChoices`), `selBy_expected` and
+    `…_judged` (the judge's `expectCore.minmax`: a `oneOf` containing the returned bits, with the returned flags).
+
+  Nothing was found that deviates from the specification.
+
+  Structure: the four routines are, by `rfl`, `front x (fun v => front y (fun w => nanStage num v w f))` with
+  `num = plainNum mx` (min/max) or `magNum mx` (the `_mag` forms), `mx = false/true` — the min and the max version of
+  each family are the same text up to which operand is returned (and, for `minnum`/`maxnum`, the two short-cut tests);
+  `front` is the canonicalising front end, `gapStage` the common "gap > 33 / 128×128 / 64×128 bit product" step.
+  Reused from C03GenCompare: bit tests, `decodeW`, word comparisons, `scale192`/`scale256`, model-side `cmpFin_nat`;
+  from C19GenDpd: `ofBits`, mask arithmetic.
+-/
 import DecProofs.Properties.C03GenCompare
 import DecProofs.Properties.C19GenDpd
 
@@ -8,6 +39,8 @@ namespace Dec.C16GenMinMax
 open Dec.Rs Dec.Gen.Code Dec.C03GenCompare
 
 abbrev Res := Except String (U128 × UInt32)
+
+/-! ## 1. The routines in stages -/
 
 /-- the canonicalising front end all four routines apply to each operand -/
 def canonW (x : U128) : U128 :=
@@ -897,5 +930,540 @@ theorem bid128_maxnum_eq (x y : U128) (f : UInt32) :
         flagsOut f (decode (bitsOf x)) (decode (bitsOf y))) := by
   rw [maxnum_unfold]
   exact stages_spec _ _ (fun x y f hx hy nx ny => plainNum_spec true x y f hx hy nx ny) x y f
+
+
+/-! ## 10. `bid128_minnum_mag` / `bid128_maxnum_mag` -/
+
+theorem val128_inj (a b : U128) (h : val128 a = val128 b) : a = b := by
+  have ha := ofBits_bitsOf a; have hb := ofBits_bitsOf b
+  rw [← ha, ← hb]
+  exact congrArg ofBits h
+
+theorem eqW3 (e : Bool) (a b : U128) :
+    (e && a.w1 == b.w1 && a.w0 == b.w0) = (e && decide (val128 a = val128 b)) := by
+  cases e
+  · simp
+  · rw [Bool.eq_iff_iff]
+    simp only [Bool.true_and, Bool.and_eq_true, beq_iff_eq, decide_eq_true_eq]
+    constructor
+    · rintro ⟨e1, e0⟩
+      obtain ⟨a0, a1⟩ := a; obtain ⟨b0, b1⟩ := b
+      simp only at e1 e0
+      subst e1; subst e0; rfl
+    · intro h
+      have := val128_inj a b h
+      subst this; exact ⟨rfl, rfl⟩
+
+theorem lt256 (r : U256) (s : U128) :
+    (r.w3 == 0 && r.w2 == 0 && (decide (r.w1 < s.w1) || r.w1 == s.w1 && decide (r.w0 < s.w0)))
+      = decide (val256 r < val128 s) := by
+  have := r.w0.toNat_lt; have := r.w1.toNat_lt; have := s.w0.toNat_lt; have := s.w1.toNat_lt
+  rw [Bool.eq_iff_iff, decide_eq_true_iff]
+  simp only [Bool.or_eq_true, Bool.and_eq_true, decide_eq_true_eq, beq_iff_eq, UInt64.lt_iff_toNat_lt,
+    ← UInt64.toNat_inj, UInt64.toNat_zero, val128, val256]
+  omega
+
+theorem lt192 (r : U192) (s : U128) :
+    (r.w2 == 0 && (decide (r.w1 < s.w1) || r.w1 == s.w1 && decide (r.w0 < s.w0)))
+      = decide (val192 r < val128 s) := by
+  have := r.w0.toNat_lt; have := r.w1.toNat_lt; have := s.w0.toNat_lt; have := s.w1.toNat_lt
+  rw [Bool.eq_iff_iff, decide_eq_true_iff]
+  simp only [Bool.or_eq_true, Bool.and_eq_true, decide_eq_true_eq, beq_iff_eq, UInt64.lt_iff_toNat_lt,
+    ← UInt64.toNat_inj, UInt64.toNat_zero, val128, val192]
+  omega
+
+theorem leaf' (E F : Bool) (x y : U128) (f : UInt32) (h : (!E) = F) :
+    (pure (if E = true then y else x, f) : Res) = .ok (if F = true then x else y, f) := by
+  subst h; cases E <;> rfl
+
+theorem leafQ (mx F : Bool) (x y : U128) (f : UInt32) (h : mx = F) :
+    (pure (bif mx then x else y, f) : Res) = .ok (if F = true then x else y, f) := by subst h; cases mx <;> rfl
+
+theorem leafP (mx F : Bool) (x y : U128) (f : UInt32) (h : (!mx) = F) :
+    (pure (bif mx then y else x, f) : Res) = .ok (if F = true then x else y, f) := by subst h; cases mx <;> rfl
+
+theorem magTail_spec (mx : Bool) (x y : U128) (f : UInt32) (s1 s2 : Bool)
+    (hsx : (x.w1 &&& 0x8000000000000000 == 0x8000000000000000) = s1)
+    (hsy : (y.w1 &&& 0x8000000000000000 == 0x8000000000000000) = s2)
+    (cx cy q1 q2 : Nat) (hcx : val128 (sigOf x) = cx) (hcy : val128 (sigOf y) = cy)
+    (px : 0 < cx) (lx : cx < P34) (py : 0 < cy) (ly : cy < P34)
+    (hq1 : (expOf x).toInt = q1) (hq2 : (expOf y).toInt = q2) (b1 : q1 < 2^14) (b2 : q2 < 2^14)
+    (hne : ¬ (s1 = s2 ∧ q1 = q2 ∧ cx = cy)) :
+    magTail mx x y f = .ok (if (if cx * 10 ^ (q1 - q2) < cy * 10 ^ (q2 - q1) then !mx
+        else if cy * 10 ^ (q2 - q1) < cx * 10 ^ (q1 - q2) then mx
+        else (if s1 == s2 then (s1 == mx) else (s1 != mx))) = true then x else y, f) := by
+  obtain ⟨t1, t2, t3, t4, t5, t6, t7⟩ := exp_tests x y q1 q2 hq1 hq2
+  have d1 := int32_sub_toInt (expOf y) (expOf x) q2 q1 hq2 hq1 b2 b1
+  have d2 := int32_sub_toInt (expOf x) (expOf y) q1 q2 hq1 hq2 b1 b2
+  unfold magTail
+  simp only [hsx, hsy, t1, t2, t3, t7, geW, gtW, ltW, eqW3, eq256, eq192, gt256, gt192, lt256, lt192, pq1, pq2,
+    hcx, hcy]
+  have hX := le_scale cx (q1 - q2)
+  have hY := le_scale cy (q2 - q1)
+  by_cases hq : q2 = q1
+  · subst hq
+    have hne' : ¬ (s1 = s2 ∧ cx = cy) := fun ⟨h1, h2⟩ => hne ⟨h1, rfl, h2⟩
+    simp only [Nat.sub_self, Nat.pow_zero, Nat.mul_one, decide_true, Bool.true_and, Bool.and_true, Nat.lt_irrefl,
+      decide_false, Bool.and_false, Bool.or_false]
+    rcases Nat.lt_trichotomy cx cy with h | h | h
+    · have n1 : ¬ cx = cy := by omega
+      have n2 : ¬ cy < cx := by omega
+      rw [if_neg (by simpa using n1), if_neg (by simpa using n2), if_pos (decide_eq_true h)]
+      apply leafP; rw [if_pos h]
+    · subst h
+      have hs : s1 ≠ s2 := fun h => hne' ⟨h, rfl⟩
+      rw [if_pos (decide_eq_true rfl)]
+      apply leaf'
+      simp only [Nat.lt_irrefl, if_false]
+      cases s1 <;> cases s2 <;> cases mx <;> simp at hs ⊢
+    · have n1 : ¬ cx = cy := by omega
+      have n2 : ¬ cx < cy := by omega
+      rw [if_neg (by simpa using n1), if_pos (decide_eq_true h)]
+      apply leafQ; rw [if_neg n2, if_pos h]
+  have hq' : ¬ q1 = q2 := fun h => hq h.symm
+  simp only [hq, hq', decide_false, Bool.false_and, Bool.and_false, Bool.false_or, Bool.false_eq_true, if_false]
+  by_cases hlt : q2 < q1
+  · -- exponent of x larger
+    have e0 : q2 - q1 = 0 := by omega
+    have n1 : ¬ q1 < q2 := by omega
+    simp only [e0, Nat.pow_zero, Nat.mul_one, hlt, n1, decide_true, decide_false, Bool.and_true, Bool.and_false,
+      Bool.false_eq_true, if_false]
+    by_cases hsc : cy ≤ cx
+    · rw [if_pos (decide_eq_true hsc)]
+      have hAB := scale_gt cx cy (q1 - q2) px hsc (by omega)
+      have hBA : ¬ cx * 10 ^ (q1 - q2) < cy := by omega
+      apply leafQ; rw [if_neg hBA, if_pos hAB]
+    · rw [if_neg (by simpa using hsc)]
+      have g0 : expOf x - expOf y > 0 := by rw [int32_gt_lit, d1]; show (0 : Int) < _; omega
+      rw [if_pos (decide_eq_true g0)]
+      rcases gapStage_spec (expOf x - expOf y) (q1 - q2) (by rw [d1]; omega) (by omega) (sigOf x) _ _ _ with
+        ⟨hg, h⟩ | ⟨hg, r, rv, h⟩ | ⟨hg, r, rv, h⟩ <;> rw [h]
+      · have hAB := big_gap cx cy (q1 - q2) px ly hg
+        have hBA : ¬ cx * 10 ^ (q1 - q2) < cy := by omega
+        apply leafQ; rw [if_neg hBA, if_pos hAB]
+      · simp only [rv, hcx]
+        rcases Nat.lt_trichotomy cy (cx * 10 ^ (q1 - q2)) with h1 | h1 | h1
+        · have n2 : ¬ cy = cx * 10 ^ (q1 - q2) := by omega
+          have n3 : ¬ cx * 10 ^ (q1 - q2) < cy := by omega
+          rw [if_neg (by simpa using n2)]
+          apply leaf; rw [if_neg n3, if_pos h1]; simp only [h1, decide_true]; cases mx <;> rfl
+        · rw [if_pos (decide_eq_true h1)]
+          apply leaf; rw [← h1]; simp only [Nat.lt_irrefl, if_false]
+          cases s1 <;> cases s2 <;> cases mx <;> rfl
+        · have n2 : ¬ cy = cx * 10 ^ (q1 - q2) := by omega
+          have n3 : ¬ cy < cx * 10 ^ (q1 - q2) := by omega
+          rw [if_neg (by simpa using n2)]
+          apply leaf; rw [if_pos h1]; simp only [n3, decide_false]; cases mx <;> rfl
+      · simp only [rv, hcx]
+        rcases Nat.lt_trichotomy cy (cx * 10 ^ (q1 - q2)) with h1 | h1 | h1
+        · have n2 : ¬ cy = cx * 10 ^ (q1 - q2) := by omega
+          have n3 : ¬ cx * 10 ^ (q1 - q2) < cy := by omega
+          rw [if_neg (by simpa using n2)]
+          apply leaf; rw [if_neg n3, if_pos h1]; simp only [h1, decide_true]; cases mx <;> rfl
+        · rw [if_pos (decide_eq_true h1)]
+          apply leaf; rw [← h1]; simp only [Nat.lt_irrefl, if_false]
+          cases s1 <;> cases s2 <;> cases mx <;> rfl
+        · have n2 : ¬ cy = cx * 10 ^ (q1 - q2) := by omega
+          have n3 : ¬ cy < cx * 10 ^ (q1 - q2) := by omega
+          rw [if_neg (by simpa using n2)]
+          apply leaf; rw [if_pos h1]; simp only [n3, decide_false]; cases mx <;> rfl
+  · -- exponent of y larger
+    have hlt' : q1 < q2 := by omega
+    have e0 : q1 - q2 = 0 := by omega
+    simp only [e0, Nat.pow_zero, Nat.mul_one, hlt, hlt', decide_true, decide_false, Bool.and_true, Bool.and_false,
+      Bool.false_eq_true, if_false]
+    by_cases hsc : cx ≤ cy
+    · rw [if_pos (decide_eq_true hsc)]
+      have hAB := scale_gt cy cx (q2 - q1) py hsc (by omega)
+      apply leafP; rw [if_pos hAB]
+    · rw [if_neg (by simpa using hsc)]
+      have g0 : ¬ expOf x - expOf y > 0 := by rw [int32_gt_lit, d1]; show ¬ (0 : Int) < _; omega
+      rw [if_neg (by simpa using g0)]
+      rcases gapStage_spec (expOf y - expOf x) (q2 - q1) (by rw [d2]; omega) (by omega) (sigOf y) _ _ _ with
+        ⟨hg, h⟩ | ⟨hg, r, rv, h⟩ | ⟨hg, r, rv, h⟩ <;> rw [h]
+      · have hAB := big_gap cy cx (q2 - q1) py lx hg
+        apply leafP; rw [if_pos hAB]
+      · simp only [rv, hcy]
+        rcases Nat.lt_trichotomy cx (cy * 10 ^ (q2 - q1)) with h1 | h1 | h1
+        · have n2 : ¬ cx = cy * 10 ^ (q2 - q1) := by omega
+          have n3 : ¬ cy * 10 ^ (q2 - q1) < cx := by omega
+          rw [if_neg (by simpa using n2)]
+          apply leaf; rw [if_pos h1]; simp only [n3, decide_false]; cases mx <;> rfl
+        · rw [if_pos (decide_eq_true h1)]
+          apply leaf; rw [← h1]; simp only [Nat.lt_irrefl, if_false]
+          cases s1 <;> cases s2 <;> cases mx <;> rfl
+        · have n2 : ¬ cx = cy * 10 ^ (q2 - q1) := by omega
+          have n3 : ¬ cx < cy * 10 ^ (q2 - q1) := by omega
+          rw [if_neg (by simpa using n2)]
+          apply leaf; rw [if_neg n3, if_pos h1]; simp only [h1, decide_true]; cases mx <;> rfl
+      · simp only [rv, hcy]
+        rcases Nat.lt_trichotomy cx (cy * 10 ^ (q2 - q1)) with h1 | h1 | h1
+        · have n2 : ¬ cx = cy * 10 ^ (q2 - q1) := by omega
+          have n3 : ¬ cy * 10 ^ (q2 - q1) < cx := by omega
+          rw [if_neg (by simpa using n2)]
+          apply leaf; rw [if_pos h1]; simp only [n3, decide_false]; cases mx <;> rfl
+        · rw [if_pos (decide_eq_true h1)]
+          apply leaf; rw [← h1]; simp only [Nat.lt_irrefl, if_false]
+          cases s1 <;> cases s2 <;> cases mx <;> rfl
+        · have n2 : ¬ cx = cy * 10 ^ (q2 - q1) := by omega
+          have n3 : ¬ cx < cy * 10 ^ (q2 - q1) := by omega
+          rw [if_neg (by simpa using n2)]
+          apply leaf; rw [if_neg n3, if_pos h1]; simp only [h1, decide_true]; cases mx <;> rfl
+
+/-- the tie rule of `bid128_minnum_mag` (`mx = false`) / `bid128_maxnum_mag` (`mx = true`) for operands of equal
+value: two zeros → `minnum_mag` the first, `maxnum_mag` the second operand; two members of a cohort →
+`minnum_mag` the first operand if they are positive and the second if negative, `maxnum_mag` the other way round
+(the exponents play no role) -/
+def magTie (mx : Bool) : Datum → Datum → Bool
+  | .fin s c1 _, .fin _ _ _ => if c1 == 0 then !mx else (s == mx)
+  | _, _ => true
+
+theorem sInt_false (n : Nat) : sInt false n = (n : Int) := rfl
+
+/-- finite operands, `_mag` forms: first the aligned magnitudes, then (equal magnitudes) the signed values -/
+theorem firstOf_mag_fin (mx : Bool) (tie : Datum → Datum → Bool) (s1 s2 : Bool) (c1 c2 q1 q2 : Nat) :
+    firstOf mx true tie (.fin s1 c1 ((q1 : Nat) - (6176 : Int))) (.fin s2 c2 ((q2 : Nat) - (6176 : Int)))
+      = if c1 * 10 ^ (q1 - q2) < c2 * 10 ^ (q2 - q1) then !mx
+        else if c2 * 10 ^ (q2 - q1) < c1 * 10 ^ (q1 - q2) then mx
+        else first3 mx (tie (.fin s1 c1 ((q1 : Nat) - (6176 : Int))) (.fin s2 c2 ((q2 : Nat) - (6176 : Int))))
+          (sInt s1 (c1 * 10 ^ (q1 - q2))) (sInt s2 (c2 * 10 ^ (q2 - q1))) := by
+  unfold firstOf ordOf first3
+  simp only [if_true, Datum.setSign, cmpD, cmpFin_nat, compare_int, sInt_false]
+  generalize c1 * 10 ^ (q1 - q2) = A
+  generalize c2 * 10 ^ (q2 - q1) = B
+  generalize sInt s1 A = U
+  generalize sInt s2 B = V
+  rcases Nat.lt_trichotomy A B with h | h | h
+  · have h' : (A : Int) < B := by omega
+    simp only [h, h', if_true]
+  · subst h
+    simp only [Int.lt_irrefl, Nat.lt_irrefl, if_true, if_false]
+    by_cases h1 : U < V
+    · simp only [h1, if_true]
+    · by_cases h2 : U = V
+      · subst h2; simp only [Int.lt_irrefl, if_true, if_false]
+      · simp only [h1, h2, if_false]
+  · have h1 : ¬ (A : Int) < B := by omega
+    have h2 : ¬ (A : Int) = B := by omega
+    have h3 : ¬ A < B := by omega
+    simp only [h, h1, h2, h3, if_true, if_false]
+
+theorem first3_eqmag (mx t s1 s2 : Bool) (A : Nat) (hA : 0 < A) :
+    first3 mx t (sInt s1 A) (sInt s2 A) = if s1 == s2 then t else (s1 != mx) := by
+  unfold first3 sInt
+  cases s1 <;> cases s2 <;> cases mx <;> simp <;> omega
+
+theorem firstOf_mag_inf_left (mx : Bool) (tie : Datum → Datum → Bool) (s1 : Bool) (b : Datum) (hb : b.isNaN = false)
+    (hne : b ≠ .inf s1) : firstOf mx true tie (.inf s1) b = ((s1 && b.isInf) != mx) := by
+  unfold firstOf ordOf
+  cases b with
+  | nan s g p => simp [Datum.isNaN] at hb
+  | inf s2 =>
+    have : s1 ≠ s2 := fun h => hne (by rw [h])
+    cases s1 <;> cases s2 <;> cases mx <;> simp [cmpD, Datum.setSign, Datum.isInf] at this ⊢
+  | fin s c e => cases s1 <;> cases mx <;> simp [cmpD, Datum.setSign, Datum.isInf]
+
+theorem firstOf_mag_inf_right (mx : Bool) (tie : Datum → Datum → Bool) (s c e) (s2 : Bool) :
+    firstOf mx true tie (.fin s c e) (.inf s2) = !mx := by
+  unfold firstOf ordOf
+  cases s2 <;> cases mx <;> simp [cmpD, Datum.setSign]
+
+theorem pure_self' (x : U128) (f : UInt32) (c : Prop) [Decidable c] :
+    (pure (x, f) : Res) = .ok (if c then x else x, f) := by rw [ite_self]; rfl
+
+theorem magNum_spec (mx : Bool) (x y : U128) (f : UInt32) (hx : Canon x) (hy : Canon y)
+    (nx : (decode (bitsOf x)).isNaN = false) (ny : (decode (bitsOf y)).isNaN = false) :
+    magNum mx x y f =
+      .ok (if firstOf mx true (magTie mx) (decode (bitsOf x)) (decode (bitsOf y)) = true then x else y, f) := by
+  unfold magNum
+  simp only []
+  rw [beq128]
+  by_cases hxy : x = y
+  · subst hxy
+    rw [if_pos (decide_eq_true rfl)]
+    exact pure_self x f _
+  rw [if_neg (by simpa using hxy)]
+  have hdne : decode (bitsOf x) ≠ decode (bitsOf y) := fun h => hxy (canon_inj x y hx hy h)
+  rw [pq2, infT y hy ny, inf_test]
+  rcases canon_num x hx nx with ⟨ix, dx⟩ | ⟨ix, lx, dx⟩
+  · -- x is an infinity
+    rw [if_pos (decide_eq_true ix)]
+    apply leaf
+    rw [dx, firstOf_mag_inf_left mx _ _ _ ny (by rw [← dx]; exact fun h => hdne h.symm), negOf_eq]
+  rw [if_neg (by simpa using ix)]
+  rcases canon_num y hy ny with ⟨iy, dy⟩ | ⟨iy, ly, dy⟩
+  · -- y is an infinity, x is finite
+    rw [if_pos (by rw [dy]; rfl)]
+    apply leafP
+    rw [dx, dy, firstOf_mag_inf_right]
+  rw [if_neg (by rw [dy]; simp [Datum.isInf])]
+  -- both finite
+  rw [dx, dy, firstOf_mag_fin, zeroT, zeroT]
+  have hsx : (x.w1 &&& 0x8000000000000000 == 0x8000000000000000) = negW x.w1.toNat := negOf_eq x
+  have hsy : (y.w1 &&& 0x8000000000000000 == 0x8000000000000000) = negW y.w1.toNat := negOf_eq y
+  have hne : ¬ (negW x.w1.toNat = negW y.w1.toNat ∧ expW x.w1.toNat = expW y.w1.toNat ∧
+      sigW x.w1.toNat x.w0.toNat = sigW y.w1.toNat y.w0.toNat) := fun ⟨h1, h2, h3⟩ => hxy (same_fields x y h1 h2 h3)
+  have pw : ∀ k : Nat, 0 < 10 ^ k := fun k => Nat.pow_pos (by decide)
+  generalize negW x.w1.toNat = s1 at *
+  generalize negW y.w1.toNat = s2 at *
+  generalize hc1 : sigW x.w1.toNat x.w0.toNat = c1 at *
+  generalize hc2 : sigW y.w1.toNat y.w0.toNat = c2 at *
+  generalize hq1 : expW x.w1.toNat = q1 at *
+  generalize hq2 : expW y.w1.toNat = q2 at *
+  by_cases z1 : c1 = 0
+  · rw [if_pos (decide_eq_true z1)]
+    subst z1
+    apply leafP
+    simp only [Nat.zero_mul, Nat.lt_irrefl, if_false]
+    by_cases z2 : c2 = 0
+    · subst z2
+      simp only [Nat.zero_mul, Nat.lt_irrefl, if_false, first3_zero_zero, magTie, beq_self_eq_true, if_true]
+    · rw [if_pos (Nat.mul_pos (by omega) (pw _))]
+  · rw [if_neg (by simpa using z1)]
+    by_cases z2 : c2 = 0
+    · rw [if_pos (decide_eq_true z2)]
+      subst z2
+      apply leafQ
+      simp only [Nat.zero_mul, Nat.not_lt_zero, if_false]
+      rw [if_pos (Nat.mul_pos (by omega) (pw _))]
+    · rw [if_neg (by simpa using z2)]
+      have p1 : 0 < c1 := by omega
+      have p2 : 0 < c2 := by omega
+      rw [magTail_spec mx x y f s1 s2 hsx hsy c1 c2 q1 q2 (by rw [val128_sigOf, hc1]) (by rw [val128_sigOf, hc2])
+          p1 lx p2 ly (by rw [expOf_toInt, hq1]) (by rw [expOf_toInt, hq2])
+          (by rw [← hq1]; exact expW_lt _) (by rw [← hq2]; exact expW_lt _) hne]
+      apply congrArg (fun b : Bool => Except.ok (if b = true then x else y, f))
+      by_cases hA : c1 * 10 ^ (q1 - q2) < c2 * 10 ^ (q2 - q1)
+      · rw [if_pos hA, if_pos hA]
+      · rw [if_neg hA, if_neg hA]
+        by_cases hB : c2 * 10 ^ (q2 - q1) < c1 * 10 ^ (q1 - q2)
+        · rw [if_pos hB, if_pos hB]
+        · rw [if_neg hB, if_neg hB]
+          have hE : c2 * 10 ^ (q2 - q1) = c1 * 10 ^ (q1 - q2) := by omega
+          rw [hE, first3_eqmag _ _ _ _ _ (Nat.mul_pos p1 (pw _))]
+          simp only [magTie, show (c1 == 0) = false from by simpa using z1, Bool.false_eq_true, if_false]
+
+/-- which of two numbers `bid128_minnum_mag` returns: the one of smaller magnitude; equal magnitudes: the smaller one;
+equal values: see `magTie` -/
+def minMagFirst : Datum → Datum → Bool := firstOf false true (magTie false)
+/-- which of two numbers `bid128_maxnum_mag` returns: the one of larger magnitude; equal magnitudes: the larger one;
+equal values: see `magTie` -/
+def maxMagFirst : Datum → Datum → Bool := firstOf true true (magTie true)
+
+/-- **`bid128_minnum_mag`**, all pairs of patterns, every status word -/
+theorem bid128_minnum_mag_eq (x y : U128) (f : UInt32) :
+    bid128_minnum_mag x y f =
+      .ok (ofBits (encode (selBy minMagFirst (decode (bitsOf x)) (decode (bitsOf y)))),
+        flagsOut f (decode (bitsOf x)) (decode (bitsOf y))) := by
+  rw [minnum_mag_unfold]
+  exact stages_spec _ _ (fun x y f hx hy nx ny => magNum_spec false x y f hx hy nx ny) x y f
+
+/-- **`bid128_maxnum_mag`**, likewise -/
+theorem bid128_maxnum_mag_eq (x y : U128) (f : UInt32) :
+    bid128_maxnum_mag x y f =
+      .ok (ofBits (encode (selBy maxMagFirst (decode (bitsOf x)) (decode (bitsOf y)))),
+        flagsOut f (decode (bitsOf x)) (decode (bitsOf y))) := by
+  rw [maxnum_mag_unfold]
+  exact stages_spec _ _ (fun x y f hx hy nx ny => magNum_spec true x y f hx hy nx ny) x y f
+
+
+/-! ## 11. What the theorems say in the terms of the specification (`DecModel/Ops.lean`, `DecModel/Compare.lean`) -/
+
+theorem isSNaN_isNaN (a : Datum) (h : a.isSNaN = true) : a.isNaN = true := by
+  cases a <;> simp [Datum.isSNaN, Datum.isNaN] at h ⊢
+
+/-- numbers: the result is one of the operands the exact order allows (`Dec.minmaxChoices`) -/
+theorem selBy_mem_choices (mx mag : Bool) (tie : Datum → Datum → Bool) (a b : Datum)
+    (ha : a.isNaN = false) (hb : b.isNaN = false) :
+    selBy (firstOf mx mag tie) a b ∈ minmaxChoices mx mag a b := by
+  unfold selBy
+  rw [ha, hb]
+  simp only [Bool.or_self, Bool.false_eq_true, if_false]
+  exact firstOf_mem mx mag tie a b
+
+/-- **the judge's expectation** (`expectCore.minmax`): it is a `oneOf`, the datum the code returns is one of the
+alternatives, and the flags it raises are the expected ones — for every pair of patterns, NaNs included -/
+theorem selBy_expected (mx mag : Bool) (tie : Datum → Datum → Bool) (X Y : Nat) :
+    ∃ alts, Dec.expectCore.minmax mx mag X Y = .oneOf alts (quietCmpFlags (decode X) (decode Y)) ∧
+      [Val.d (encode (selBy (firstOf mx mag tie) (decode X) (decode Y)))] ∈ alts := by
+  unfold Dec.expectCore.minmax selBy nanSel quietCmpFlags
+  simp only []
+  generalize decode X = a
+  generalize decode Y = b
+  by_cases h1 : a.isSNaN = true
+  · have n1 := isSNaN_isNaN a h1
+    refine ⟨_, by simp only [h1, Bool.true_or, if_true]; rfl, ?_⟩
+    simp only [n1, h1, Bool.true_or, if_true, List.filter_cons_of_pos, List.map_cons]
+    exact List.mem_cons_self
+  · by_cases h2 : b.isSNaN = true
+    · have n2 := isSNaN_isNaN b h2
+      refine ⟨_, by simp only [h2, Bool.or_true, if_true]; rfl, ?_⟩
+      by_cases n1 : a.isNaN = true
+      · simp only [n1, n2, h1, h2, Bool.true_or, if_true, if_false, Bool.false_eq_true, List.filter_cons_of_pos,
+          List.map_cons]
+        have : quietNaN a = a := by
+          cases a <;> simp [Datum.isSNaN, quietNaN] at h1 ⊢
+          exact h1
+        rw [this]; exact List.mem_cons_self
+      · simp only [n1, n2, h2, Bool.or_true, if_true, if_false, Bool.false_eq_true, List.filter_cons_of_pos,
+          List.filter_cons_of_neg, List.map_cons, not_false_eq_true]
+        exact List.mem_cons_self
+    · have e : (a.isSNaN || b.isSNaN) = false := by simp [h1, h2]
+      simp only [e, Bool.false_eq_true, if_false]
+      by_cases n1 : a.isNaN = true
+      · by_cases n2 : b.isNaN = true
+        · refine ⟨_, by simp only [n1, n2, Bool.and_self, if_true]; rfl, ?_⟩
+          simp only [n1, n2, h1, Bool.or_self, if_true, if_false, Bool.false_eq_true]
+          exact List.mem_cons_self
+        · refine ⟨_, by simp only [n1, n2, Bool.and_false, Bool.false_eq_true, if_false, if_true]; rfl, ?_⟩
+          simp only [n1, n2, h1, Bool.true_or, if_true, if_false, Bool.false_eq_true]
+          exact List.mem_cons_self
+      · by_cases n2 : b.isNaN = true
+        · refine ⟨_, by simp only [n1, n2, Bool.false_and, Bool.false_eq_true, if_false, if_true]; rfl, ?_⟩
+          simp only [n1, n2, h2, Bool.or_true, if_true, if_false, Bool.false_eq_true]
+          exact List.mem_cons_self
+        · refine ⟨_, by simp only [n1, n2, Bool.and_self, Bool.false_eq_true, if_false]; rfl, ?_⟩
+          simp only [n1, n2, Bool.or_self, Bool.false_eq_true, if_false]
+          exact List.mem_map_of_mem (firstOf_mem mx mag tie a b)
+
+theorem quietNaN_WF (a : Datum) (h : a.WF) : (quietNaN a).WF := by
+  cases a <;> simp [quietNaN, Datum.WF] at h ⊢ <;> exact h
+
+theorem selBy_WF (first : Datum → Datum → Bool) (a b : Datum) (ha : a.WF) (hb : b.WF) : (selBy first a b).WF := by
+  unfold selBy nanSel
+  repeat' split
+  all_goals first | exact ha | exact hb | exact quietNaN_WF _ ha | exact quietNaN_WF _ hb
+
+/-- the returned word is always a canonical encoding — also when the operands are not -/
+theorem result_canonical (first : Datum → Datum → Bool) (x y : U128) :
+    isCanonical (bitsOf (ofBits (encode (selBy first (decode (bitsOf x)) (decode (bitsOf y)))))) = true ∧
+    bitsOf (ofBits (encode (selBy first (decode (bitsOf x)) (decode (bitsOf y)))))
+      = encode (selBy first (decode (bitsOf x)) (decode (bitsOf y))) := by
+  have hw := selBy_WF first _ _ (decode_WF (bitsOf x)) (decode_WF (bitsOf y))
+  have e := bitsOf_ofBits_of_lt (encode_lt hw)
+  rw [bitsOf_eq] at e
+  rw [e]
+  exact ⟨isCanonical_encode hw, rfl⟩
+
+
+/-- the four operations in the judge's terms: the returned bits are `[.d (bitsOf r)]` with `bitsOf r` one of the
+expected alternatives, and the status word is the incoming one or-ed with exactly the expected flags -/
+theorem minnum_judged (x y : U128) (f : UInt32) :
+    ∃ r alts, bid128_minnum x y f = .ok (r, f ||| UInt32.ofNat (quietCmpFlags (decode (bitsOf x)) (decode (bitsOf y)))) ∧
+      Dec.expectCore.minmax false false (bitsOf x) (bitsOf y)
+        = .oneOf alts (quietCmpFlags (decode (bitsOf x)) (decode (bitsOf y))) ∧
+      [Val.d (bitsOf r)] ∈ alts ∧ isCanonical (bitsOf r) = true := by
+  obtain ⟨alts, h1, h2⟩ := selBy_expected false false (plainTie false) (bitsOf x) (bitsOf y)
+  obtain ⟨c1, c2⟩ := result_canonical minFirst x y
+  exact ⟨_, alts, bid128_minnum_eq x y f, h1, by rw [c2]; exact h2, c1⟩
+
+theorem maxnum_judged (x y : U128) (f : UInt32) :
+    ∃ r alts, bid128_maxnum x y f = .ok (r, f ||| UInt32.ofNat (quietCmpFlags (decode (bitsOf x)) (decode (bitsOf y)))) ∧
+      Dec.expectCore.minmax true false (bitsOf x) (bitsOf y)
+        = .oneOf alts (quietCmpFlags (decode (bitsOf x)) (decode (bitsOf y))) ∧
+      [Val.d (bitsOf r)] ∈ alts ∧ isCanonical (bitsOf r) = true := by
+  obtain ⟨alts, h1, h2⟩ := selBy_expected true false (plainTie true) (bitsOf x) (bitsOf y)
+  obtain ⟨c1, c2⟩ := result_canonical maxFirst x y
+  exact ⟨_, alts, bid128_maxnum_eq x y f, h1, by rw [c2]; exact h2, c1⟩
+
+theorem minnum_mag_judged (x y : U128) (f : UInt32) :
+    ∃ r alts, bid128_minnum_mag x y f
+        = .ok (r, f ||| UInt32.ofNat (quietCmpFlags (decode (bitsOf x)) (decode (bitsOf y)))) ∧
+      Dec.expectCore.minmax false true (bitsOf x) (bitsOf y)
+        = .oneOf alts (quietCmpFlags (decode (bitsOf x)) (decode (bitsOf y))) ∧
+      [Val.d (bitsOf r)] ∈ alts ∧ isCanonical (bitsOf r) = true := by
+  obtain ⟨alts, h1, h2⟩ := selBy_expected false true (magTie false) (bitsOf x) (bitsOf y)
+  obtain ⟨c1, c2⟩ := result_canonical minMagFirst x y
+  exact ⟨_, alts, bid128_minnum_mag_eq x y f, h1, by rw [c2]; exact h2, c1⟩
+
+theorem maxnum_mag_judged (x y : U128) (f : UInt32) :
+    ∃ r alts, bid128_maxnum_mag x y f
+        = .ok (r, f ||| UInt32.ofNat (quietCmpFlags (decode (bitsOf x)) (decode (bitsOf y)))) ∧
+      Dec.expectCore.minmax true true (bitsOf x) (bitsOf y)
+        = .oneOf alts (quietCmpFlags (decode (bitsOf x)) (decode (bitsOf y))) ∧
+      [Val.d (bitsOf r)] ∈ alts ∧ isCanonical (bitsOf r) = true := by
+  obtain ⟨alts, h1, h2⟩ := selBy_expected true true (magTie true) (bitsOf x) (bitsOf y)
+  obtain ⟨c1, c2⟩ := result_canonical maxMagFirst x y
+  exact ⟨_, alts, bid128_maxnum_mag_eq x y f, h1, by rw [c2]; exact h2, c1⟩
+
+/-! ### How `firstOf` reads: forced by a strict order, the tie rule otherwise -/
+
+theorem firstOf_lt (mx mag : Bool) (tie : Datum → Datum → Bool) (a b : Datum) (h : ordOf mag a b = some .lt) :
+    firstOf mx mag tie a b = !mx := by unfold firstOf; rw [h]
+theorem firstOf_gt (mx mag : Bool) (tie : Datum → Datum → Bool) (a b : Datum) (h : ordOf mag a b = some .gt) :
+    firstOf mx mag tie a b = mx := by unfold firstOf; rw [h]
+theorem firstOf_eq (mx mag : Bool) (tie : Datum → Datum → Bool) (a b : Datum) (h : ordOf mag a b = some .eq) :
+    firstOf mx mag tie a b = tie a b := by unfold firstOf; rw [h]
+
+/-- `ordOf` is literally the order `minmaxChoices` uses -/
+theorem choices_by_ordOf (mx mag : Bool) (a b : Datum) :
+    minmaxChoices mx mag a b =
+      (match ordOf mag a b with
+       | some .lt => if mx then [b] else [a]
+       | some .gt => if mx then [a] else [b]
+       | _ => [a, b]) := rfl
+
+/-! ### Non-vacuity: the theorems on concrete operands (each result also agrees with running the translated code) -/
+
+theorem ok_pair {A C : U128} {B D : UInt32} (h1 : A = C) (h2 : B = D) : (Except.ok (A, B) : Res) = .ok (C, D) := by
+  rw [h1, h2]
+
+-- two zeros: the first operand, whatever the signs (`minnum`, `maxnum`, `minnum_mag`); `maxnum_mag`: the second
+example : bid128_minnum ⟨0, 0x3040000000000000⟩ ⟨0, 0xb040000000000000⟩ 0 = .ok (⟨0, 0x3040000000000000⟩, 0) :=
+  (bid128_minnum_eq _ _ _).trans (ok_pair (by decide +kernel) (by decide +kernel))
+example : bid128_minnum ⟨0, 0xb040000000000000⟩ ⟨0, 0x3040000000000000⟩ 0 = .ok (⟨0, 0xb040000000000000⟩, 0) :=
+  (bid128_minnum_eq _ _ _).trans (ok_pair (by decide +kernel) (by decide +kernel))
+example : bid128_maxnum ⟨0, 0x3040000000000000⟩ ⟨0, 0xb040000000000000⟩ 0 = .ok (⟨0, 0x3040000000000000⟩, 0) :=
+  (bid128_maxnum_eq _ _ _).trans (ok_pair (by decide +kernel) (by decide +kernel))
+example : bid128_maxnum_mag ⟨0, 0x3040000000000000⟩ ⟨0, 0xb040000000000000⟩ 0 = .ok (⟨0, 0xb040000000000000⟩, 0) :=
+  (bid128_maxnum_mag_eq _ _ _).trans (ok_pair (by decide +kernel) (by decide +kernel))
+-- 1E+1 and 10E+0 (same value): `minnum` keeps the larger exponent (in either order), `maxnum` the smaller one
+example : bid128_minnum ⟨1, 0x3042000000000000⟩ ⟨10, 0x3040000000000000⟩ 0 = .ok (⟨1, 0x3042000000000000⟩, 0) :=
+  (bid128_minnum_eq _ _ _).trans (ok_pair (by decide +kernel) (by decide +kernel))
+example : bid128_minnum ⟨10, 0x3040000000000000⟩ ⟨1, 0x3042000000000000⟩ 0 = .ok (⟨1, 0x3042000000000000⟩, 0) :=
+  (bid128_minnum_eq _ _ _).trans (ok_pair (by decide +kernel) (by decide +kernel))
+example : bid128_maxnum ⟨1, 0x3042000000000000⟩ ⟨10, 0x3040000000000000⟩ 0 = .ok (⟨10, 0x3040000000000000⟩, 0) :=
+  (bid128_maxnum_eq _ _ _).trans (ok_pair (by decide +kernel) (by decide +kernel))
+-- −1E+1 and −10E+0: the other way round
+example : bid128_minnum ⟨1, 0xb042000000000000⟩ ⟨10, 0xb040000000000000⟩ 0 = .ok (⟨10, 0xb040000000000000⟩, 0) :=
+  (bid128_minnum_eq _ _ _).trans (ok_pair (by decide +kernel) (by decide +kernel))
+example : bid128_maxnum ⟨1, 0xb042000000000000⟩ ⟨10, 0xb040000000000000⟩ 0 = .ok (⟨1, 0xb042000000000000⟩, 0) :=
+  (bid128_maxnum_eq _ _ _).trans (ok_pair (by decide +kernel) (by decide +kernel))
+-- `_mag`: −2 against 2, and 2 against −20E−1 (equal magnitudes: the negative one is the minimum)
+example : bid128_minnum_mag ⟨2, 0xb040000000000000⟩ ⟨2, 0x3040000000000000⟩ 0 = .ok (⟨2, 0xb040000000000000⟩, 0) :=
+  (bid128_minnum_mag_eq _ _ _).trans (ok_pair (by decide +kernel) (by decide +kernel))
+example : bid128_maxnum_mag ⟨2, 0xb040000000000000⟩ ⟨2, 0x3040000000000000⟩ 0 = .ok (⟨2, 0x3040000000000000⟩, 0) :=
+  (bid128_maxnum_mag_eq _ _ _).trans (ok_pair (by decide +kernel) (by decide +kernel))
+example : bid128_minnum_mag ⟨2, 0x3040000000000000⟩ ⟨20, 0xb03e000000000000⟩ 0 = .ok (⟨20, 0xb03e000000000000⟩, 0) :=
+  (bid128_minnum_mag_eq _ _ _).trans (ok_pair (by decide +kernel) (by decide +kernel))
+-- `_mag`, same value: positive cohort members → `minnum_mag` the first, `maxnum_mag` the second; negative: reversed
+example : bid128_minnum_mag ⟨1, 0x3042000000000000⟩ ⟨10, 0x3040000000000000⟩ 0 = .ok (⟨1, 0x3042000000000000⟩, 0) :=
+  (bid128_minnum_mag_eq _ _ _).trans (ok_pair (by decide +kernel) (by decide +kernel))
+example : bid128_maxnum_mag ⟨1, 0x3042000000000000⟩ ⟨10, 0x3040000000000000⟩ 0 = .ok (⟨10, 0x3040000000000000⟩, 0) :=
+  (bid128_maxnum_mag_eq _ _ _).trans (ok_pair (by decide +kernel) (by decide +kernel))
+example : bid128_minnum_mag ⟨1, 0xb042000000000000⟩ ⟨10, 0xb040000000000000⟩ 0 = .ok (⟨10, 0xb040000000000000⟩, 0) :=
+  (bid128_minnum_mag_eq _ _ _).trans (ok_pair (by decide +kernel) (by decide +kernel))
+-- NaNs: a quiet NaN loses against a number (flags untouched); a signalling NaN is returned quieted with `invalid`;
+-- quiet first + signalling second operand: the first (quiet) one is returned, `invalid` raised
+example : bid128_minnum ⟨3, 0x7c00000000000000⟩ ⟨2, 0x3040000000000000⟩ 4 = .ok (⟨2, 0x3040000000000000⟩, 4) :=
+  (bid128_minnum_eq _ _ _).trans (ok_pair (by decide +kernel) (by decide +kernel))
+example : bid128_minnum ⟨2, 0x3040000000000000⟩ ⟨7, 0xfe00000000000000⟩ 4 = .ok (⟨7, 0xfc00000000000000⟩, 5) :=
+  (bid128_minnum_eq _ _ _).trans (ok_pair (by decide +kernel) (by decide +kernel))
+example : bid128_minnum ⟨3, 0x7c00000000000000⟩ ⟨7, 0xfe00000000000000⟩ 4 = .ok (⟨3, 0x7c00000000000000⟩, 5) :=
+  (bid128_minnum_eq _ _ _).trans (ok_pair (by decide +kernel) (by decide +kernel))
+-- non-canonical operands come back canonical: a large-coefficient pattern is the zero +0E−6176 …; an infinity with junk bits
+example : bid128_minnum ⟨5, 0x6c00000000000000⟩ ⟨2, 0x3040000000000000⟩ 0 = .ok (⟨0, 0x3000000000000000⟩, 0) :=
+  (bid128_minnum_eq _ _ _).trans (ok_pair (by decide +kernel) (by decide +kernel))
+example : bid128_maxnum ⟨99, 0x7800000000000123⟩ ⟨2, 0x3040000000000000⟩ 0 = .ok (⟨0, 0x7800000000000000⟩, 0) :=
+  (bid128_maxnum_eq _ _ _).trans (ok_pair (by decide +kernel) (by decide +kernel))
+-- far-apart and 128 × 128-bit paths, by running the translated code itself
+example : bid128_minnum ⟨1, 0x3090000000000000⟩ ⟨9, 0x3040000000000000⟩ 0 = .ok (⟨9, 0x3040000000000000⟩, 0) := by rfl
+example : bid128_maxnum ⟨0x161401484a000001, 0x3040000000084595⟩ ⟨1, 0x3072000000000000⟩ 0
+    = .ok (⟨0x161401484a000001, 0x3040000000084595⟩, 0) := by rfl
+-- the judge's form, and the order reading
+example := minnum_judged ⟨1, 0x3042000000000000⟩ ⟨10, 0x3040000000000000⟩ 8
+example : minFirst (.fin false 1 1) (.fin false 10 0) = true ∧ maxFirst (.fin false 1 1) (.fin false 10 0) = false ∧
+    minFirst (.fin true 1 1) (.fin true 10 0) = false ∧ minMagFirst (.fin true 1 1) (.fin true 10 0) = false ∧
+    maxMagFirst (.fin false 0 0) (.fin true 0 5) = false ∧ minFirst (.fin false 0 0) (.fin true 0 5) = true := by decide
 
 end Dec.C16GenMinMax
